@@ -188,6 +188,78 @@ func DumpTrie(t *algz.Trie) string {
 	return sb.String()
 }
 
+// DumpCompact prints the structure of the real trie in time and space linear in the number
+// of nodes (op `dumpc`, used for big tries where the paths of `dump` would be quadratic):
+// per node in depth-first pre-order (children in array order)
+// `<last rune>;<size>;<isEnd>;<pre-order index of the fail target>`, root rune `.`, nil `nil`,
+// a pointer to no node of the trie `?`, a node reached twice `!shared`.
+func DumpCompact(t *algz.Trie) string {
+	type cn struct {
+		r     int32
+		size  int64
+		isEnd bool
+		fail  uintptr
+		raw   string
+	}
+	var ents []cn
+	idx := map[uintptr]int{}
+	type item struct {
+		n    reflect.Value
+		addr uintptr
+		r    int32
+	}
+	root := reflect.ValueOf(t).Elem().FieldByName("root")
+	stack := []item{{root, root.UnsafeAddr(), 0}}
+	for len(stack) > 0 {
+		it := stack[len(stack)-1]
+		stack = stack[:len(stack)-1]
+		if _, seen := idx[it.addr]; seen {
+			ents = append(ents, cn{raw: "!shared"})
+			continue
+		}
+		idx[it.addr] = len(ents)
+		ents = append(ents, cn{r: it.r, size: it.n.Field(fSize).Int(), isEnd: it.n.Field(fIsEnd).Bool(), fail: it.n.Field(fFail).Pointer()})
+		cs := it.n.Field(fChildren)
+		for i := cs.Len() - 1; i >= 0; i-- { // pushed in reverse: popped in array order
+			c := cs.Index(i)
+			np := c.Field(fNode)
+			if np.IsNil() {
+				continue
+			}
+			stack = append(stack, item{np.Elem(), np.Pointer(), int32(c.Field(fVal).Int())})
+		}
+	}
+	var sb strings.Builder
+	for i, e := range ents {
+		if i > 0 {
+			sb.WriteByte('|')
+		}
+		if e.raw != "" {
+			sb.WriteString(e.raw)
+			continue
+		}
+		if i == 0 {
+			sb.WriteByte('.')
+		} else {
+			sb.WriteString(strconv.FormatInt(int64(e.r), 10))
+		}
+		end := 0
+		if e.isEnd {
+			end = 1
+		}
+		fp := "nil"
+		if e.fail != 0 {
+			if k, ok := idx[e.fail]; ok {
+				fp = strconv.Itoa(k)
+			} else {
+				fp = "?"
+			}
+		}
+		fmt.Fprintf(&sb, ";%d;%d;%s", e.size, end, fp)
+	}
+	return sb.String()
+}
+
 // FailCycle returns the path of a node whose fail chain reaches neither the root nor a
 // nil pointer within as many steps as the trie has nodes ("" = every chain ends).
 // Every query of the real code that reaches such a node loops forever (and `find` grows
